@@ -38,11 +38,11 @@ import (
 
 var (
 	OxiaSlashSpanComparer = &pebble.Comparer{
-		Compare:            compare.CompareWithSlash,
-		Equal:              pebble.DefaultComparer.Equal,
-		AbbreviatedKey:     compare.AbbreviatedKeyDisableSlash,
-		FormatKey:          pebble.DefaultComparer.FormatKey,
-		FormatValue:        pebble.DefaultComparer.FormatValue,
+		Compare:        compare.CompareWithSlash,
+		Equal:          pebble.DefaultComparer.Equal,
+		AbbreviatedKey: compare.AbbreviatedKeyDisableSlash,
+		FormatKey:      pebble.DefaultComparer.FormatKey,
+		FormatValue:    pebble.DefaultComparer.FormatValue,
 		// The bytewise Separator/Successor of the default comparer are not consistent with
 		// CompareWithSlash: e.g. the bytewise separator of "p.x" and "p0" is "p/", which sorts
 		// after "p0" in the slash order, so that index blocks would point lookups to the wrong
